@@ -53,6 +53,8 @@ class Run:
         return d
 
     def violation(self, key, what, replay_obj):
+        if any(v["key"] == key for v in self.violations):
+            return
         rdir = os.path.join(VERIF, "replays", self.prop)
         os.makedirs(rdir, exist_ok=True)
         h = hashlib.sha1(key.encode()).hexdigest()[:10]
